@@ -176,7 +176,7 @@ func checkPipeline(w *core.Worker, rr *core.Rand, k int, reuse bool, chunked boo
 			cuts := CutsRandom(nil, rr, offs, len(stream), rr.Range(1, 6))
 			o := offs
 			for _, c := range cuts {
-				n, e, pan, _ = safeCall(U, stream[:c], o)
+				n, e, pan, _ = safeCall(U, isoCopy(stream[:c]), o)
 				seen = c
 				if pan != "" || e != sipsp.ErrHdrMoreBytes {
 					break
